@@ -185,14 +185,34 @@ type vfC07Inv struct { // one invocation of a closure
 
 type vfC07Ledger struct {
 	mu   sync.Mutex
-	seq  atomic.Int64
+	seq  *atomic.Int64 // one counter for both hosts of a run
 	nh   int
 	live map[string]*vfC07H
 	all  []*vfC07H
 	invs []*vfC07Inv
 }
 
-func newVfC07Ledger() *vfC07Ledger { return &vfC07Ledger{live: map[string]*vfC07H{}} }
+func newVfC07Ledger(seq *atomic.Int64) *vfC07Ledger {
+	return &vfC07Ledger{live: map[string]*vfC07H{}, seq: seq}
+}
+
+// ever: has this host ever registered the name p (what identify can have advertised) or accepted p as
+// the LISTENER of a stream?  These are the only legitimate sources of the other host's knowledge of p.
+func (l *vfC07Ledger) ever(p protocol.ID) bool {
+	l.mu.Lock()
+	defer l.mu.Unlock()
+	for _, h := range l.all {
+		if h.n == string(p) {
+			return true
+		}
+	}
+	for _, inv := range l.invs {
+		if inv.proto == p {
+			return true
+		}
+	}
+	return false
+}
 
 func (l *vfC07Ledger) handler(h *vfC07H) network.StreamHandler {
 	return func(s network.Stream) {
@@ -299,6 +319,9 @@ type vfC07Str struct {
 	lazy     bool  // the host returned its lazy wrapper
 	inv      *vfC07Inv
 	lastUsed int64
+	d        string       // dialer ("A" or "B")
+	dn       *vfC07Node   // the dialer's node
+	ll       *vfC07Ledger // the LISTENER's ledger
 }
 
 func vfC07InReq(p protocol.ID, req []protocol.ID) bool {
@@ -394,15 +417,25 @@ type vfC07Cfg struct {
 
 type vfC07ModelSlot struct {
 	Ph string            `json:"ph"`
+	D  string            `json:"d"`
 	P  string            `json:"p"`
 	H  map[string]string `json:"h"`
 }
 type vfC07ModelState struct {
-	Tbl  []map[string]string `json:"tbl"`
-	K    []string            `json:"K"`
-	St   []vfC07ModelSlot    `json:"st"`
-	Aout map[string]int      `json:"aout"`
-	Bin  map[string]int      `json:"bin"`
+	Tbl map[string][]map[string]string `json:"tbl"`
+	K   map[string][]string            `json:"K"`
+	St  []vfC07ModelSlot               `json:"st"`
+	Out map[string]map[string]int      `json:"out"`
+	Inn map[string]map[string]int      `json:"inn"`
+}
+
+var vfC07Hosts = []string{"A", "B"}
+
+func vfC07Other(x string) string {
+	if x == "A" {
+		return "B"
+	}
+	return "A"
 }
 
 type vfC07Run struct {
@@ -411,8 +444,10 @@ type vfC07Run struct {
 	walk   int
 	step   int
 	prefix []vfh.Op
-	a, b   *vfC07Node
-	l      *vfC07Ledger
+	a, b   *vfC07Node             // = nodes["A"], nodes["B"]
+	l      *vfC07Ledger           // = ls["B"] (the one-directional concurrent run: A dials, B serves)
+	nodes  map[string]*vfC07Node  // both hosts
+	ls     map[string]*vfC07Ledger // per host: closures registered ON it, invocations ON it
 	slots  []*vfC07Str
 	absent []bool // the model has a stream in this slot, the real host refused it (after an L2 divergence)
 	t      *testing.T
@@ -442,10 +477,14 @@ func (r *vfC07Run) setup() {
 		r.t.Fatal(err)
 	}
 	if r.cfg.Host == "basic" && !r.cfg.Push {
-		// A does not support identify push: B will never push its protocol changes to A
+		// neither host supports identify push: the other one will never push its protocol changes to it
 		r.a.h.RemoveStreamHandler(identify.IDPush)
+		r.b.h.RemoveStreamHandler(identify.IDPush)
 	}
-	r.l = newVfC07Ledger()
+	seq := &atomic.Int64{}
+	r.nodes = map[string]*vfC07Node{"A": r.a, "B": r.b}
+	r.ls = map[string]*vfC07Ledger{"A": newVfC07Ledger(seq), "B": newVfC07Ledger(seq)}
+	r.l = r.ls["B"]
 	r.slots = make([]*vfC07Str, r.cfg.Slots)
 	r.absent = make([]bool, r.cfg.Slots)
 	synctest.Wait()
@@ -463,8 +502,9 @@ func (r *vfC07Run) teardown() {
 	synctest.Wait()
 }
 
-func (r *vfC07Run) knowledge() []string {
-	sup, _ := r.a.ps.SupportsProtocols(r.b.id, vfC07P...)
+// knowledge: what host x's peerstore lists for the other host (restricted to the model's ids)
+func (r *vfC07Run) knowledge(x string) []string {
+	sup, _ := r.nodes[x].ps.SupportsProtocols(r.nodes[vfC07Other(x)].id, vfC07P...)
 	out := []string{}
 	for _, p := range sup {
 		out = append(out, string(p))
@@ -473,21 +513,32 @@ func (r *vfC07Run) knowledge() []string {
 	return out
 }
 
-func (r *vfC07Run) noCommonNow(req []protocol.ID) bool {
-	s := r.l.seq.Load()
-	return !r.l.commonDuring(req, s, s)
+func vfC07CommonNow(l *vfC07Ledger, req []protocol.ID) bool {
+	s := l.seq.Add(1) // a fresh instant: strictly after every removal that has returned
+	return l.commonDuring(req, s, s)
+}
+
+// at: the host an add/remove/forget acts on (one-directional files carry no "at": B serves, A forgets)
+func vfC07At(op vfh.Op, def string) string {
+	if x := op.S("at"); x != "" {
+		return x
+	}
+	return def
 }
 
 func (r *vfC07Run) apply(op vfh.Op) {
 	switch op.Name() {
 	case "add":
-		r.l.add(r.b.h, op.S("n"), op.S("k"))
+		x := vfC07At(op, "B")
+		r.ls[x].add(r.nodes[x].h, op.S("n"), op.S("k"))
 		synctest.Wait()
 	case "remove":
-		r.l.remove(r.b.h, op.S("n"))
+		x := vfC07At(op, "B")
+		r.ls[x].remove(r.nodes[x].h, op.S("n"))
 		synctest.Wait()
 	case "forget":
-		r.a.ps.RemoveProtocols(r.b.id, vfC07P...)
+		x := vfC07At(op, "A")
+		r.nodes[x].ps.RemoveProtocols(r.nodes[vfC07Other(x)].id, vfC07P...)
 	case "learn":
 		for i, x := range r.slots { // the model enables learn only with every slot idle
 			if x != nil {
@@ -526,14 +577,23 @@ func (r *vfC07Run) open(op vfh.Op) {
 		synctest.Wait()
 	}
 	r.absent[i] = false
-	noCommon := r.noCommonNow(req)
-	n0 := r.l.nInvs()
-	openSeq := r.l.seq.Add(1)
-	s, err := r.a.h.NewStream(context.Background(), r.b.id, req...)
+	d := op.S("d")
+	if d == "" {
+		d = "A"
+	}
+	dn, ln, ll := r.nodes[d], r.nodes[vfC07Other(d)], r.ls[vfC07Other(d)]
+	noCommon := !vfC07CommonNow(ll, req)
+	n0, n0d := ll.nInvs(), r.ls[d].nInvs()
+	openSeq := ll.seq.Add(1)
+	s, err := dn.h.NewStream(context.Background(), ln.id, req...)
 	synctest.Wait()
-	invs := r.l.invsFrom(n0)
+	invs := ll.invsFrom(n0)
+	if n := r.ls[d].nInvs() - n0d; n != 0 {
+		r.rep("wrong-endpoint", "a handler of the DIALING host ran while it opened a stream to the other host", 0, n)
+	}
 	expRes := op.S("res")
 	r.res.Inc("open_"+expRes, 1)
+	r.res.Inc("open_by_"+d, 1)
 	if len(req) > 1 {
 		r.res.Inc("open_multi", 1)
 	}
@@ -545,13 +605,17 @@ func (r *vfC07Run) open(op vfh.Op) {
 			}
 			r.rep(cls, fmt.Sprintf("open failed (%v) but %d handler(s) ran", err, len(invs)), 0, len(invs))
 		}
+		if !noCommon {
+			// CommonMeansSuccess: nothing races in the replay, and a negotiated open has no knowledge to blame
+			r.rep("common-protocol-open-failed", fmt.Sprintf("the open failed (%v) although the listener's current table accepts one of the requested ids %v", err, req), "success", "fail")
+		}
 		if expRes != "fail" {
 			r.rep("L2:open-result", "the open failed where the model's rule succeeds: "+err.Error(), expRes, "fail")
 			r.absent[i] = true
 		}
 		return
 	}
-	x := &vfC07Str{s: s, rd: bufio.NewReader(s), req: req, openSeq: openSeq,
+	x := &vfC07Str{s: s, rd: bufio.NewReader(s), req: req, openSeq: openSeq, d: d, dn: dn, ll: ll,
 		lazy: strings.HasSuffix(fmt.Sprintf("%T", s), "streamWrapper")}
 	r.slots[i] = x
 	// L1: bound to one of the requested ids
@@ -563,7 +627,7 @@ func (r *vfC07Run) open(op vfh.Op) {
 	}
 	if len(invs) >= 1 {
 		x.inv = invs[0]
-		vfC07CheckInv(r.rep, r.a, x, x.inv)
+		vfC07CheckInv(r.rep, dn, x, x.inv)
 	}
 	if noCommon && len(invs) > 0 {
 		r.rep("handler-ran-without-common-protocol", "a handler ran although no registered matcher accepts any requested id", nil, nil)
@@ -613,16 +677,16 @@ func (r *vfC07Run) use(op vfh.Op) {
 		return
 	}
 	first := x.inv == nil
-	n0 := r.l.nInvs()
-	noCommon := !r.l.commonDuring(x.req, x.openSeq, r.l.seq.Load())
+	n0 := x.ll.nInvs()
+	noCommon := !x.ll.commonDuring(x.req, x.openSeq, x.ll.seq.Load())
 	nonce := fmt.Sprintf("N%d-%d-%d-%d", vfh.Seed(), r.walk, r.step, i)
 	tok := ""
 	if q := op.S("q"); q != "" {
 		tok = string(rune(len(q)+1)) + q + "\n" // <uvarint length><id><newline>: a well-formed multistream token
 	}
-	ok, serial, wrote, err := vfC07Echo2(r.rep, r.l, x, nonce, tok)
+	ok, serial, wrote, err := vfC07Echo2(r.rep, x.ll, x, nonce, tok)
 	synctest.Wait()
-	invs := r.l.invsFrom(n0)
+	invs := x.ll.invsFrom(n0)
 	r.res.Inc("use_"+op.S("res"), 1)
 	if !ok && wrote && first {
 		r.res.Inc("refused_first_use_write_alone_succeeded", 1) // documented behaviour of the lazy client (see assumptions)
@@ -653,6 +717,11 @@ func (r *vfC07Run) use(op vfh.Op) {
 		case stray["n"] != "":
 			r.rep("L2:stray-handler", "the model's rule starts a handler on the application's bytes after the refusal; none ran", stray, nil)
 		}
+		if first && vfC07CommonNow(x.ll, x.req) && !x.ll.ever(x.s.Protocol()) {
+			// CommonMeansSuccess: the statement excuses a failed first use only when the id was "chosen
+			// optimistically from EARLIER KNOWLEDGE"; the listener never advertised nor accepted this id
+			r.rep("optimistic-choice-never-advertised", fmt.Sprintf("host %s opened %v to a listener whose current table accepts one of them; the stream was bound optimistically to %s, which the listener has never registered nor accepted as listener, and the first use failed (%v)", x.d, x.req, x.s.Protocol(), err), "success", "fail")
+		}
 		if op.S("res") != "fail" {
 			r.rep("L2:use-result", "the round trip failed where the model's rule succeeds: "+err.Error(), "ok", "fail")
 			r.absent[i] = true
@@ -668,7 +737,7 @@ func (r *vfC07Run) use(op vfh.Op) {
 		}
 		if len(invs) >= 1 {
 			x.inv = invs[0]
-			vfC07CheckInv(r.rep, r.a, x, x.inv)
+			vfC07CheckInv(r.rep, x.dn, x, x.inv)
 		}
 		if noCommon {
 			r.rep("established-without-common-protocol", "the first use succeeded although no registered matcher accepted any requested id since the open began", "fail", "ok")
@@ -701,13 +770,13 @@ func (r *vfC07Run) closeOp(op vfh.Op) {
 		r.res.Inc("skipped_after_divergence", 1)
 		return
 	}
-	n0 := r.l.nInvs()
-	noCommon := !r.l.commonDuring(x.req, x.openSeq, r.l.seq.Load())
+	n0 := x.ll.nInvs()
+	noCommon := !x.ll.commonDuring(x.req, x.openSeq, x.ll.seq.Load())
 	unused := x.inv == nil
 	x.s.Close()
 	synctest.Wait()
 	r.slots[i] = nil
-	invs := r.l.invsFrom(n0)
+	invs := x.ll.invsFrom(n0)
 	r.res.Inc("close", 1)
 	if unused {
 		r.res.Inc("close_unused", 1)
@@ -716,7 +785,7 @@ func (r *vfC07Run) closeOp(op vfh.Op) {
 		}
 		if len(invs) >= 1 {
 			r.res.Inc("close_unused_handler_ran", 1)
-			vfC07CheckInv(r.rep, r.a, x, invs[0])
+			vfC07CheckInv(r.rep, x.dn, x, invs[0])
 			if noCommon {
 				r.rep("handler-ran-without-common-protocol", "a handler ran at the close of a never-used stream although no registered matcher accepted any requested id", nil, nil)
 			}
@@ -747,75 +816,82 @@ func (r *vfC07Run) audit(raw json.RawMessage) {
 	if err := json.Unmarshal(raw, &m); err != nil {
 		r.t.Fatalf("state: %v", err)
 	}
-	// L1: every live stream of A is counted in the scope of the protocol it reports, on A; every
-	// established one also on B; nothing else is counted
-	expA, expB := map[protocol.ID]int{}, map[protocol.ID]int{}
-	for _, x := range r.slots {
-		if x == nil {
-			continue
+	// L1: every live stream is counted in the scope of the protocol it reports on its dialer (outbound);
+	// every established one also on its listener (inbound); nothing else is counted
+	for _, h := range vfC07Hosts {
+		o := vfC07Other(h)
+		expOut, expIn := map[protocol.ID]int{}, map[protocol.ID]int{}
+		live, liveIn, served := 0, 0, 0
+		for _, x := range r.slots {
+			if x == nil {
+				continue
+			}
+			if x.d == h {
+				expOut[x.s.Protocol()]++
+				live++
+			} else {
+				liveIn++
+				if x.inv != nil {
+					expIn[x.s.Protocol()]++
+				}
+			}
 		}
-		expA[x.s.Protocol()]++
-		if x.inv != nil {
-			expB[x.s.Protocol()]++
+		rm := r.nodes[h].rm
+		for _, p := range vfC07P {
+			g := vfC07Stat(rm, p)
+			if g.NumStreamsOutbound < expOut[p] {
+				r.rep("scope-not-charged-dialer", fmt.Sprintf("host %s: the protocol scope %s does not show the streams it opened", h, p), expOut[p], g)
+			} else if g.NumStreamsOutbound > expOut[p] {
+				r.rep("scope-residue-dialer", fmt.Sprintf("host %s: the protocol scope %s shows outbound streams that are not open", h, p), expOut[p], g)
+			}
+			if g.NumStreamsInbound < expIn[p] {
+				r.rep("scope-not-charged-listener", fmt.Sprintf("host %s: the protocol scope %s does not show the established streams it serves", h, p), expIn[p], g)
+			} else if g.NumStreamsInbound > expIn[p] {
+				r.rep("scope-residue-listener", fmt.Sprintf("host %s: the protocol scope %s shows inbound streams that are not established", h, p), expIn[p], g)
+			}
+			if m.Out[h][string(p)] != g.NumStreamsOutbound || m.Inn[h][string(p)] != g.NumStreamsInbound {
+				r.rep("L2:scope-counts", fmt.Sprintf("host %s: protocol scope counts of %s differ from the model", h, p),
+					[]int{m.Out[h][string(p)], m.Inn[h][string(p)]}, []int{g.NumStreamsOutbound, g.NumStreamsInbound})
+			}
 		}
-	}
-	for _, p := range vfC07P {
-		ga, gb := vfC07Stat(r.a.rm, p), vfC07Stat(r.b.rm, p)
-		if ga.NumStreamsOutbound < expA[p] || ga.NumStreamsInbound != 0 {
-			r.rep("scope-not-charged-dialer", fmt.Sprintf("dialer's protocol scope %s does not show its open streams", p), expA[p], ga)
-		} else if ga.NumStreamsOutbound > expA[p] {
-			r.rep("scope-residue-dialer", fmt.Sprintf("dialer's protocol scope %s shows streams that are not open", p), expA[p], ga)
+		// L2: system-wide stream residue (failed opens must not leave streams behind; C04 territory)
+		for _, inv := range r.ls[h].invsFrom(0) {
+			inv.mu.Lock()
+			if !inv.done {
+				served++
+			}
+			inv.mu.Unlock()
 		}
-		if gb.NumStreamsInbound < expB[p] || gb.NumStreamsOutbound != 0 {
-			r.rep("scope-not-charged-listener", fmt.Sprintf("listener's protocol scope %s does not show the established streams", p), expB[p], gb)
-		} else if gb.NumStreamsInbound > expB[p] {
-			r.rep("scope-residue-listener", fmt.Sprintf("listener's protocol scope %s shows streams that are not established", p), expB[p], gb)
+		if sy := vfC07Sys(rm); sy.NumStreamsOutbound != live {
+			r.rep("L2:stream-residue-dialer", fmt.Sprintf("host %s: the system scope counts outbound streams other than the open ones at rest", h), live, sy)
+		} else if sy.NumStreamsInbound < served || sy.NumStreamsInbound > liveIn {
+			r.rep("L2:stream-residue-listener", fmt.Sprintf("host %s: the system scope counts inbound streams other than the open ones at rest", h), liveIn, sy)
 		}
-		if m.Aout[string(p)] != ga.NumStreamsOutbound || m.Bin[string(p)] != gb.NumStreamsInbound {
-			r.rep("L2:scope-counts", fmt.Sprintf("protocol scope counts of %s differ from the model", p),
-				[]int{m.Aout[string(p)], m.Bin[string(p)]}, []int{ga.NumStreamsOutbound, gb.NumStreamsInbound})
+		// L2: table (names in the muxer's order)
+		var names, mnames []string
+		for _, p := range r.nodes[h].h.Mux().Protocols() {
+			if strings.HasPrefix(string(p), "/v/") {
+				names = append(names, string(p))
+			}
 		}
-	}
-	// L2: system-wide stream residue (failed opens must not leave streams behind; C04 territory)
-	live, served := 0, 0
-	for _, x := range r.slots {
-		if x != nil {
-			live++
+		for _, e := range m.Tbl[h] {
+			mnames = append(mnames, e["n"])
 		}
-	}
-	for _, inv := range r.l.invsFrom(0) {
-		inv.mu.Lock()
-		if !inv.done {
-			served++
+		if strings.Join(names, ",") != strings.Join(mnames, ",") {
+			r.rep("L2:table", fmt.Sprintf("host %s: the muxer's handler names/order differ from the model", h), mnames, names)
 		}
-		inv.mu.Unlock()
-	}
-	if sa := vfC07Sys(r.a.rm); sa.NumStreamsOutbound != live || sa.NumStreamsInbound != 0 {
-		r.rep("L2:stream-residue-dialer", "dialer's system scope counts streams other than the open ones at rest", live, sa)
-	}
-	if sb := vfC07Sys(r.b.rm); sb.NumStreamsOutbound != 0 || sb.NumStreamsInbound < served || sb.NumStreamsInbound > live {
-		r.rep("L2:stream-residue-listener", "listener's system scope counts streams other than the open ones at rest", live, sb)
-	}
-	// L2: table (names in the muxer's order), knowledge, slot phases
-	var names []string
-	for _, p := range r.b.h.Mux().Protocols() {
-		if strings.HasPrefix(string(p), "/v/") {
-			names = append(names, string(p))
-		}
-	}
-	var mnames []string
-	for _, e := range m.Tbl {
-		mnames = append(mnames, e["n"])
-	}
-	if strings.Join(names, ",") != strings.Join(mnames, ",") {
-		r.rep("L2:table", "the muxer's handler names/order differ from the model", mnames, names)
-	}
-	{
-		k := r.knowledge()
-		mk := append([]string(nil), m.K...)
+		// L2: knowledge: equal to the model, and never an id the other host has not advertised or accepted
+		// as listener - whatever streams the other host opened towards this one
+		k := r.knowledge(h)
+		mk := append([]string(nil), m.K[h]...)
 		sort.Strings(mk)
 		if strings.Join(k, ",") != strings.Join(mk, ",") {
-			r.rep("L2:knowledge", "the dialer's peerstore lists other protocols of the listener than the model", mk, k)
+			r.rep("L2:knowledge", fmt.Sprintf("host %s's peerstore lists other protocols of the other host than the model", h), mk, k)
+		}
+		for _, p := range k {
+			if !r.ls[o].ever(protocol.ID(p)) {
+				r.rep("L2:knowledge-never-advertised", fmt.Sprintf("host %s's peerstore lists %s for host %s, which never registered it nor accepted it as listener", h, p, o), nil, p)
+			}
 		}
 	}
 	for i, x := range r.slots {
@@ -879,7 +955,7 @@ func TestVerifC07Replay(t *testing.T) {
 			jobs = append(jobs, job{cfg, w})
 		}
 	}
-	shards := vfh.EnvInt("VERIF_C07_SHARDS", 6)
+	shards := vfh.EnvInt("VERIF_C07_SHARDS", 8)
 	t.Run("shards", func(t *testing.T) {
 		for sh := 0; sh < shards; sh++ {
 			t.Run(fmt.Sprintf("s%d", sh), func(t *testing.T) {
